@@ -162,6 +162,7 @@ pub fn bounds_bykey<S: Src, const P: usize, const K: usize, const FULL: bool>(s:
 // E2: the real storage layer over the redb model (natively: over real redb)
 // ---------------------------------------------------------------------------------------------
 use crate::ranger::{InsertOutcome, Store as RangerStore};
+use redb::{ReadableTable, ReadableTableMetadata};
 use crate::sync::{Entry, EntrySignature, Record, RecordIdentifier, SignedEntry};
 use iroh_blobs::Hash;
 
@@ -200,5 +201,158 @@ pub fn e2_probe<S: Src>(s: &mut S) {
     cv!(s, matches!(o2, InsertOutcome::NotInserted), "e2_probe: second entry rejected");
     let got = store.get_exact(ns, AuthorId::from(&AUTHOR_A), b"ab", true).unwrap();
     ck!(s, got.is_some() == matches!(o2, InsertOutcome::Inserted { .. }), "get_exact finds the entry iff it was inserted");
+    std::mem::forget(store);
+}
+
+/// A store over a fresh in-memory database WITHOUT running `new_impl`'s table setup + migrations
+/// (string handling of migration names is expensive to execute symbolically and irrelevant to
+/// everything but C18): the tables are created by `Tables::new` on the first `tables()`/`modify()`.
+pub fn fresh_store() -> Store {
+    let db = redb::Database::builder().create_with_backend(redb::backends::InMemoryBackend::new()).unwrap();
+    Store { db, transaction: Default::default(), open_replicas: Default::default(), pubkeys: Default::default() }
+}
+
+/// cost probe: only `Store::memory()` (table setup + migrations on an empty database)
+pub fn e2_mem<S: Src>(s: &mut S) {
+    let store = Store::memory();
+    cv!(s, true, "e2_mem: store created");
+    std::mem::forget(store);
+}
+
+/// A view of one records-table row.
+#[derive(Clone, Copy, PartialEq, Eq, Debug)]
+pub struct RowView {
+    pub author: [u8; 32],
+    pub klen: usize,
+    pub key: [u8; 4],
+    pub ts: u64,
+    pub len: u64,
+    pub hash0: u8,
+    pub empty: bool,
+}
+
+pub const VIEW_CAP: usize = 4;
+
+impl RowView {
+    pub fn of(e: &SignedEntry) -> RowView {
+        let mut key = [0u8; 4];
+        let k = e.key();
+        let klen = k.len();
+        let mut i = 0;
+        while i < 4 {
+            if i < klen {
+                key[i] = k[i];
+            }
+            i += 1;
+        }
+        RowView {
+            author: e.author().to_bytes(),
+            klen,
+            key,
+            ts: e.timestamp(),
+            len: e.content_len(),
+            hash0: e.content_hash().as_bytes()[0],
+            empty: e.content_hash() == Hash::EMPTY,
+        }
+    }
+    pub fn key(&self) -> &[u8] {
+        &self.key[..self.klen]
+    }
+    /// Record order: (timestamp, hash)
+    pub fn value_le(&self, o: &RowView) -> bool {
+        // hashes in the harness differ only in byte 0 (or are EMPTY = 0xaf...)
+        (self.ts, self.hash_key()) <= (o.ts, o.hash_key())
+    }
+    fn hash_key(&self) -> u8 {
+        if self.empty {
+            Hash::EMPTY.as_bytes()[0]
+        } else {
+            self.hash0
+        }
+    }
+}
+
+/// all rows of `ns` in the records table, in table order
+pub fn dump_records(store: &mut Store, ns: NamespaceId) -> (usize, [Option<RowView>; VIEW_CAP]) {
+    let mut out = [None; VIEW_CAP];
+    let mut n = 0;
+    let tables = store.tables().unwrap();
+    let bounds = RecordsBounds::namespace(ns);
+    let mut it = tables.records.range(bounds.as_ref()).unwrap();
+    while let Some(r) = it.next() {
+        let (k, v) = r.unwrap();
+        let e = super::into_entry(k.value(), v.value());
+        if n < VIEW_CAP {
+            out[n] = Some(RowView::of(&e));
+        }
+        n += 1;
+        std::mem::forget(e);
+    }
+    (n, out)
+}
+
+/// write rows directly into the three record tables (an injected state), bypassing `put`
+pub fn inject(store: &mut Store, entries: &[SignedEntry]) {
+    store
+        .modify(|tables| {
+            for e in entries {
+                let id = e.id();
+                let ns = id.namespace().to_bytes();
+                let au = id.author().to_bytes();
+                let hash = e.content_hash();
+                tables.records.insert(
+                    (&ns, &au, id.key()),
+                    (e.timestamp(), &e.signature().namespace().to_bytes(), &e.signature().author().to_bytes(), e.content_len(), hash.as_bytes()),
+                )?;
+                tables.records_by_key.insert((&ns, id.key(), &au), ())?;
+            }
+            Ok(())
+        })
+        .unwrap();
+}
+
+/// C02 on the real store: one `put` from an injected two-row state (row keys K1, K2 by author A
+/// or B; the new entry has key KE by author A).  Key shapes are concrete per instance (indices into
+/// MENU); timestamps, deletion-marker flags, hash bytes and the second row's author are symbolic.
+pub fn e2_put<S: Src, const K1: usize, const K2: usize, const KE: usize>(s: &mut S) {
+    let ns = NamespaceId::from(&NS);
+    let mut store = fresh_store();
+    let (t1, t2, te) = (s.u64(), s.u64(), s.u64());
+    let (d1, d2, de) = (s.bool(), s.bool(), s.bool());
+    let (h1, h2, he) = (s.u8(), s.u8(), s.u8());
+    let second_by_b = s.bool();
+    let a2 = if second_by_b { AUTHOR_B } else { AUTHOR_A };
+    let r1 = mk_entry(NS, AUTHOR_A, MENU[K1], t1, d1, h1);
+    let r2 = mk_entry(NS, a2, MENU[K2], t2, d2, h2);
+    s.assume(K1 != K2 || second_by_b); // unique (author, key)
+    let e = mk_entry(NS, AUTHOR_A, MENU[KE], te, de, he);
+    let (v1, v2, ve) = (RowView::of(&r1), RowView::of(&r2), RowView::of(&e));
+    inject(&mut store, &[r1, r2]);
+    let mut inst = StoreInstance::new(ns, &mut store);
+    let outcome = inst.put(e).unwrap();
+    let (n, rows) = dump_records(&mut store, ns);
+    // oracle
+    let blocks = |x: &RowView| x.author == ve.author && ve.key().starts_with(x.key()) && ve.value_le(x);
+    let admitted = !blocks(&v1) && !blocks(&v2);
+    let pruned = |x: &RowView| x.author == ve.author && x.key().starts_with(ve.key()) && x.value_le(&ve);
+    let has = |x: &RowView| rows.iter().any(|r| *r == Some(*x));
+    cv!(s, admitted, "e2_put: admitted");
+    cv!(s, !admitted, "e2_put: rejected");
+    match outcome {
+        InsertOutcome::NotInserted => {
+            ck!(s, !admitted, "the store rejects an entry only if an entry by the same author at its key or at a prefix of it is not older");
+            ck!(s, n == 2 && has(&v1) && has(&v2), "a rejected entry changes nothing");
+        }
+        InsertOutcome::Inserted { removed } => {
+            ck!(s, admitted, "the store admits an entry only if no entry by the same author at its key or at a prefix of it is newer or equal");
+            ck!(s, has(&ve), "an admitted entry is stored");
+            let want_removed = pruned(&v1) as usize + pruned(&v2) as usize;
+            cv!(s, want_removed > 0, "e2_put: something pruned");
+            ck!(s, removed == want_removed, "the reported count is the number of same-author entries under the new key that are not newer");
+            ck!(s, has(&v1) == (!pruned(&v1) || v1 == ve) && has(&v2) == (!pruned(&v2) || v2 == ve),
+                "exactly the same-author entries whose key starts with the new key and that are not newer are removed; other authors and lexical neighbours are untouched");
+            ck!(s, n == 3 - want_removed, "nothing else is added or removed");
+        }
+    }
     std::mem::forget(store);
 }
